@@ -11,4 +11,5 @@ INVARIANT PrunedOnOpen
 INVARIANT UndoAvailable
 INVARIANT NoUnexpectedDeath
 INVARIANT NotStuck
+INVARIANT KeepsFinishedWork
 CHECK_DEADLOCK FALSE
